@@ -23,6 +23,16 @@ let sx_of_tok = function
   | TPosInt v -> L [A "P"; sx_of_n v]
   | THyphen -> A "H" | TColon -> A "C"
 
+let int_of_z = function
+  | Z0 -> 0
+  | Zpos p -> (match int_of_pos p with Some v -> v | None -> failwith "len too big")
+  | Zneg p -> (match int_of_pos p with Some v -> - v | None -> failwith "len too big")
+
+(* index list of a request: an explicit list, or the atom `auto` = -len-2 .. len+1 *)
+let idx_of_sx (e : iexpr) = function
+  | A "auto" -> let n = int_of_z (elen e) in List.init (2 * n + 4) (fun k -> z_of_int (k - n - 2))
+  | x -> list_of_sx z_of_sx x
+
 let describe pm (e : iexpr) (idx : z list) : Sx.t =
   let toks = expr_tokens e in
   let re = match parse_tokens pm false toks with
@@ -43,12 +53,12 @@ let handle (req : Sx.t) : Sx.t =
   | L [A "from_str"; pm; pt; s; idx] ->
     let pm = bool_of_sx pm and pt = bool_of_sx pt in
     (match from_str pm pt classify (str_of_sx s) with
-     | Ok e -> L [A "ok"; describe pm e (list_of_sx z_of_sx idx)]
+     | Ok e -> L [A "ok"; describe pm e (idx_of_sx e idx)]
      | Raise x -> L [A "raise"; A (exn_name x)])
   | L [A "from_list"; pm; pf; vs; idx] ->
     let pm = bool_of_sx pm and pf = bool_of_sx pf in
     (match from_list pm pf (list_of_sx z_of_sx vs) with
-     | Ok e -> L [A "ok"; describe pm e (list_of_sx z_of_sx idx)]
+     | Ok e -> L [A "ok"; describe pm e (idx_of_sx e idx)]
      | Raise x -> L [A "raise"; A (exn_name x)])
   | L [A "spec"; s] ->
     (match lex_for classify range_kinds (str_of_sx s) with
